@@ -1,11 +1,5 @@
 #!/bin/bash
-# try_seed.sh <patch.diff> <ID> [more IDs]: apply to /repo, run the checks, revert.
-P="$1"; shift
-cd /repo || exit 2
-if [ -n "$(git status --porcelain --untracked-files=no)" ]; then echo "/repo is dirty"; exit 2; fi
-git apply "$P" || { echo "patch does not apply"; exit 2; }
-for id in "$@"; do
-  (cd /verif && ./check "$id" 2>&1 | grep -E "^VIOLATION|rule=|^C[0-9]+:|FATAL" | sed "s/^/[$id] /")
-done
-git checkout -q -- .
-git status --porcelain --untracked-files=no
+# try_seed.sh <patch.diff> <ID> [more IDs]: apply the patch to a SCRATCH COPY of /repo (never to /repo itself), run the
+# named checks on the copy, print their findings. Safe to run concurrently with anything else.
+P="$(readlink -f "$1")"; shift
+exec python3 "$(dirname "$0")/try_patch.py" "$P" "$@"
